@@ -600,7 +600,7 @@ FLAGSETS = [
 LEAVES = ["rbf", "matern1", "matern3", "matern5", "rq", "periodic", "cosine", "linear", "poly1", "poly2", "poly3",
           "pp0", "pp1", "pp2", "pp3", "const", "sm", "sdelta", "rff"]
 NO_ARD = {"cosine", "poly1", "poly2", "poly3", "const", "sm"}
-STRUCT_BASES = ["rbf", "matern5", "rq", "periodic"]
+STRUCT_BASES = ["rbf", "matern5", "rq", "periodic", "linear"]     # incl. a kernel whose diagonal is NOT constant
 
 
 def distinct_sizes(rng, dmax=4):
@@ -1411,16 +1411,29 @@ def task_kernels(ctx, rng, q):
         i2 = [rng.randrange(T) for _ in range(rng.randint(1, 5))]
         with gpytorch.settings.lazily_evaluate_kernels(rng.random() < 0.5):
             got = ik(torch.tensor(i1).unsqueeze(-1), torch.tensor(i2).unsqueeze(-1)).to_dense().detach().numpy()
+            got_d = ik(torch.tensor(i1).unsqueeze(-1), diag=True).detach().numpy()
         Bt, vt = ik.covar_factor.detach().tolist(), ik.var.detach().tolist()
         h = q.ask(f"IX {mat(Bt)} {vec(vt)} {len(i1)} {' '.join(map(str, i1))} {len(i2)} {' '.join(map(str, i2))}")
+        hd = q.ask(f"IX {mat(Bt)} {vec(vt)} {len(i1)} {' '.join(map(str, i1))} {len(i1)} {' '.join(map(str, i1))}")
         ctx.case({"index": [B, v, i1, i2]}, sample={"kernel": "IndexKernel", "T": T})
         work.append(("IndexKernel", "lookup", h, got, {"B": B, "v": v, "i1": i1, "i2": i2}))
+        work.append(("IndexKernel", "diag", hd, got_d, {"B": B, "v": v, "i1": i1, "i2": i1, "diag": True}))
         # Multitask / LCM
         d = rng.randint(1, 3)
         nparts = rng.randint(1, 3)
-        specs = [rand_leaf(rng, rng.choice(["rbf", "matern5", "rq"]), d, False) for _ in range(nparts)]
+        # data kernels: stationary AND non-stationary ones (Linear, Polynomial, sums containing them) — with a constant
+        # data-kernel diagonal a diag path that mixes up the point index is invisible
+        def data_spec():
+            fam = rng.choice(["rbf", "matern5", "rq", "linear", "poly2", "linear", "sum"])
+            if fam == "sum":
+                return {"t": "add", "ks": [rand_leaf(rng, rng.choice(["rbf", "matern3"]), d, False),
+                                           rand_leaf(rng, rng.choice(["linear", "poly2"]), d, False)]}
+            return rand_leaf(rng, fam, d, fam == "linear" and d > 1 and rng.random() < 0.5)
+        specs = [data_spec() for _ in range(nparts)]
+        if rep % 2 == 0:
+            specs[0] = rand_leaf(rng, rng.choice(["linear", "poly2"]), d, False)
         bases = [build([s], False) for s in specs]
-        na, nb_ = rng.sample([x for x in range(1, 7) if x not in (T, d)], 2)     # T, d, n1, n2 pairwise different
+        na, nb_ = rng.sample([x for x in range(2, 7) if x not in (T, d)], 2)     # T, d, n1, n2 pairwise different, n > 1
         x1, x2 = rand_x(rng, na, d), rand_x(rng, nb_, d)
         if nparts == 1:
             mk = K.MultitaskKernel(bases[0], num_tasks=T, rank=rank).double()
@@ -1446,6 +1459,18 @@ def task_kernels(ctx, rng, q):
             h = q.ask(f"MT {nparts} {' '.join(parts)} {mat(x1)} {mat(X2 if X2 is not None else x1)}")
             ctx.case({"mt": name, "x1": x1, "x2": X2, "specs": specs, "T": T}, sample={"kernel": name, "T": T, "tag": tag})
             work.append((name, tag, h, got, {"specs": specs, "x1": x1, "x2": X2, "T": T}))
+            if X2 is None:
+                # the diag path and the lazy `.diagonal()` = the diagonal of the full matrix (interleaved: position i*T + s)
+                for dtag, fn in (("diag", lambda: mk(X1t, diag=True)), ("lazy-diagonal", lambda: mk(X1t).diagonal(dim1=-1, dim2=-2))):
+                    try:
+                        with gpytorch.settings.lazily_evaluate_kernels(True):
+                            gd = fn().detach().numpy()
+                    except Exception as e:
+                        ctx.fail(f"{name}/{dtag}/raises", f"{name} {dtag}: {type(e).__name__}: {str(e)[:160]}",
+                                 {"specs": specs, "x1": x1, "x2": None, "T": T})
+                        continue
+                    ctx.case({"mt": name, "x1": x1, "specs": specs, "T": T, "tag": dtag}, sample=None)
+                    work.append((name, dtag, h, gd, {"specs": specs, "x1": x1, "x2": None, "T": T, "diag": dtag}))
 
     def finish():
         for name, tag, h, got, payload in work:
@@ -1453,7 +1478,9 @@ def task_kernels(ctx, rng, q):
                 exp = np.array(C.fmat_to_float(parse_rat(q[h])))
             else:
                 exp = parse_bits(q[h])[0]
-            if got.shape != exp.shape or not np.allclose(got, exp, rtol=1e-10, atol=1e-12):
+            if payload.get("diag"):
+                exp = np.diagonal(exp)
+            if got.shape != exp.shape or not np.allclose(got, exp, rtol=1e-10, atol=1e-12 * max(1.0, float(np.abs(exp).max()))):
                 ctx.fail(f"{name}/{tag}", f"{name} differs from " +
                          ("(BBᵀ+diag v)[i,j]" if name == "IndexKernel" else "Σ K_data ⊗ K_task in the interleaved layout"),
                          payload)
